@@ -730,7 +730,11 @@ func deliver(ev *simEvent) {
 	o := ev.st.obs
 	switch p.Kind {
 	case "marker":
-		o.SnapshotMarker(DcpSnapshotMarker{StartSeqNo: p.SnapStart, EndSeqNo: p.SnapEnd, VbID: p.Vb, SnapshotType: 1})
+		st := SnapshotState(1) // memory
+		if p.Flags != 0 {
+			st = SnapshotState(p.Flags) // (marker packets: Flags = snapshot type, e.g. 2 = disk / backfill)
+		}
+		o.SnapshotMarker(DcpSnapshotMarker{StartSeqNo: p.SnapStart, EndSeqNo: p.SnapEnd, VbID: p.Vb, SnapshotType: st})
 	case "mutation":
 		o.Mutation(DcpMutation{SeqNo: p.Seq, RevNo: p.RevNo, Cas: p.Cas, Flags: p.Flags, Expiry: p.Expiry, CollectionID: p.CollectionID, VbID: p.Vb, Datatype: p.Datatype, Key: p.Key, Value: p.Value})
 	case "deletion":
